@@ -16,7 +16,7 @@ META = {
             "document was forgotten; M3 an unappliable edit forgets the document and is not applied; M4 every request route except "
             "the lifecycle ones goes through request_snap, whose task body is with_catch_unwind and which answers from one await; M5 no "
             "handler re-acquires a lock it holds or waits for the analysis host while holding the document store (shared with C16/W1). "
-            "One obligation per site. Verifier-style: a new unjustified site is reported. M7 a self-recursive function reachable from the handlers is cut by a visited set that is asked with the key it is filled with. M8 = C13/D8; the response future of a request is an entry of M1. M11 = C13/D2 (each change of a notification is converted with the line map of the text after the previous one: else a valid later change is applied somewhere else). M10 lower_vfs deals a file to a root only behind a prefix test (the invariant the reviewed strip_prefix(..).expect(..) of module_name relies on). M9 = C10/Q9 (a request that walks 2^depth steps keeps its snapshot and the next edit blocks the main loop for ever).",
+            "One obligation per site. Verifier-style: a new unjustified site is reported. M7 a self-recursive function reachable from the handlers is cut by a visited set that is asked with the key it is filled with. M8 = C13/D8; the response future of a request is an entry of M1. M12 every disk read of the server library is length-limited (the reviewed `Text too long` expect). M11 = C13/D2 (each change of a notification is converted with the line map of the text after the previous one: else a valid later change is applied somewhere else). M10 lower_vfs deals a file to a root only behind a prefix test (the invariant the reviewed strip_prefix(..).expect(..) of module_name relies on). M9 = C10/Q9 (a request that walks 2^depth steps keeps its snapshot and the next edit blocks the main loop for ever).",
     "explanation": "The main loop has no CatchUnwindLayer (lib.rs: TODO), so any panic in a notification/event handler ends the "
                    "process. Engine G lists every panic-capable construct reachable from those handlers through crates glas and ide "
                    "(closures handed to spawn functions run elsewhere and are cut), and demands a justification for each. The "
@@ -227,6 +227,7 @@ def run(F, res, tier):
     from rules import c10 as _c10q
     _c10q.no_double_descent(F, res, rule="M9")
     files_lie_below_their_root(F, res)
+    disk_reads_are_bounded(F, res)
     _c13x2 = __import__("rules.c13", fromlist=["x"])
     _c13x2.edits_use_the_current_line_map(F, res, rule="M11")
     from rules import c13 as _c13x
@@ -536,3 +537,28 @@ def files_lie_below_their_root(F, res, rule="M10"):
             why.append("insertion at line %d: starts_with/strip_prefix test %s, component-wise all() %s, length comparison %s" % (t["ln"], starts, allz, lens))
     res.ob(rule, "lower_vfs/file-below-root", "a file is dealt to a source root only if the root's path is a prefix of the file's path (what "
            "module_name's strip_prefix(..).expect(..) relies on)", ok, where=lv.loc(), how="; ".join(why) or "%d insertions, each behind a prefix test" % len(ins))
+
+
+def disk_reads_are_bounded(F, res, rule="M12"):
+    """M12: LineMap::normalize panics (`Text too long`, a reviewed M1 site on the unguarded main loop) for a text of 4 GiB or
+    more. What the client sends is bounded by didOpen's MAX_FILE_LEN test and by the transport; what the *server* reads from
+    disk (watched-file events, package files, gleam.toml) is bounded only if every read is: in the server library no text is
+    read with fs::read_to_string / fs::read, and every Read::read_to_string reads through `Take` (a length-limited reader)."""
+    unbounded, bounded = [], 0
+    for p, f in sorted(F.fns.items()):
+        if not p.startswith(("glas::", "<glas::")) or not f.blocks:
+            continue
+        for b, t in f.calls():
+            fn_ = t.get("fn") or {}
+            c = FL.short(callee(t) or callee_def(t) or "")
+            full = fn_.get("full") or ""
+            if c in ("fs::read_to_string", "fs::read") or c.endswith("::fs::read_to_string"):
+                unbounded.append("%s line %d: %s" % (FL.short(p), t["ln"], c))
+            elif c.rsplit("::", 1)[-1] in ("read_to_string", "read_to_end") and "Read" in (fn_.get("def") or "") + full:
+                if "io::Take<" in full or any("io::Take<" in x for x in fn_.get("targs") or []):
+                    bounded += 1
+                else:
+                    unbounded.append("%s line %d: %s on %s" % (FL.short(p), t["ln"], c, (fn_.get("targs") or ["?"])[0]))
+    res.ob(rule, "disk-reads/bounded", "every text the server library reads from disk is read through a length-limited reader (a file of 4 GiB named by "
+           "a watched-files event cannot reach LineMap::normalize)", not unbounded and bounded > 0, where="crates/glas/src/server.rs",
+           how="; ".join(unbounded) or "%d read(s), all through io::Take" % bounded)
